@@ -146,6 +146,44 @@ def check_near_identical(case, ctx):
                 lambda: "wasserstein=%r, min over all matchings=%r (nearly identical diagrams, perturbation 1e-%d); A=%s B=%s" % (out, ref, case["k"], A, B))
 
 
+@st.composite
+def s_isolated(draw):
+    """B = a permuted copy of A (distinct lattice points, persistence >= one lattice unit) moved by at most 3e-6 of the lattice unit:
+    the optimal matching is isolated (every other matching costs about a lattice unit more), so the distance is a sum of a few
+    exactly computable small costs and can be demanded to RELATIVE accuracy"""
+    L = draw(st.integers(3, 8))
+    k = draw(st.sampled_from([0, 0, 3, 6, -3, -6]))
+    unit = 10.0 ** k
+    shift = draw(st.integers(-2 * L, 40 * L))
+    n = draw(st.integers(1, 5))
+    pts = draw(st.lists(st.tuples(st.integers(0, L), st.integers(1, L)), min_size=n, max_size=n, unique=True))
+    A = [[(b + shift) * unit, (b + ln + shift) * unit] for b, ln in pts]
+    e = draw(st.integers(6, 13))
+    B = [[p[0] + draw(st.integers(-3, 3)) * unit * 10.0 ** (-e), p[1] + draw(st.integers(-3, 3)) * unit * 10.0 ** (-e)] for p in A]
+    extra = draw(st.booleans())
+    if extra:
+        # one further short bar in B only: it goes to the diagonal, at a cost comparable to the lattice unit
+        b = (draw(st.integers(0, L)) + shift) * unit
+        B.append([b, b + unit * draw(st.sampled_from([0.5, 0.25, 1.0]))])
+    perm = draw(st.permutations(list(range(len(B)))))
+    return {"A": A, "B": [B[i] for i in perm], "e": e, "unit": unit, "extra": extra}
+
+
+def check_isolated(case, ctx):
+    A, B = case["A"], case["B"]
+    ref, info = M.brute(A, B, "w")
+    ctx.label("perturbation=1e-%d" % case["e"], "unit=%g" % case["unit"], "extra_bar" if case["extra"] else None)
+    ctx.nontrivial(len(A) >= 2 and ref > 0)
+    out = ctx.call(wasserstein, as_input(A), as_input(B))
+    # the moved points cost exactly representable differences; a bar sent to the diagonal is rounded relative to its coordinates
+    tol = 1e-9 * ref + (64 * 2.2e-16 * max(abs(x) for p in A + B for x in p) if case["extra"] else 0.0)
+    ctx.require(abs(float(out) - ref) <= tol, "value_relative",
+                lambda: "wasserstein=%r, min over all matchings=%r (relative error %.3g; isolated optimum, perturbation 1e-%d of the lattice unit %g); A=%s B=%s"
+                % (out, ref, abs(float(out) - ref) / ref if ref else 0.0, case["e"], case["unit"], A, B))
+    o2 = ctx.call(wasserstein, as_input(B), as_input(A))
+    ctx.require(abs(float(o2) - ref) <= tol, "value_relative", lambda: "wasserstein(B, A)=%r, min over all matchings=%r; A=%s B=%s" % (o2, ref, A, B))
+
+
 def check_decimal(case, ctx):
     A, B = case["A"], case["B"]
     ref, _ = M.brute(A, B, "w")
@@ -166,6 +204,10 @@ CLAUSES = [
     Clause("near_identical", near_identical_pair(5), check_near_identical, quick=3200, thorough=40000,
            rule="B = permuted copy of A (1..5 points) with coordinates moved by (-3..3)*10^-k*max|coord|, k in 3..15; brute-force oracle; "
                 "non-trivial = >= 2 points and a non-zero true distance"),
+    Clause("isolated_optimum", s_isolated(), check_isolated, quick=3200, thorough=40000,
+           rule="B = permuted copy of A (1..5 distinct lattice points, shift up to 40 lattice widths) moved by (-3..3) x 1e-6..1e-13 lattice units, optionally one "
+                "extra short bar: the optimum is isolated, so the value is demanded to RELATIVE accuracy 1e-9 (plus a few ulps of the coordinates when a bar "
+                "goes to the diagonal), in both argument orders; non-trivial = >= 2 points and a non-zero distance"),
     Clause("inf_dropped", s_inf(), check_inf, quick=1600, thorough=20000,
            rule="1..2 points with infinite death inserted at generated positions; value equals the brute-force value of the finite "
                 "parts and a UserWarning names exactly the affected argument(s); non-trivial = >= 2 finite points overall"),
@@ -179,6 +221,27 @@ CLAUSES = [
     Clause("lattice_slice_3", cases=lambda: lattice_slice_cases(3, 3), check=check_slice, thorough_only=True,
            rule="EXHAUSTIVE, thorough tier only: all 48400 ordered pairs of multisets of <= 3 points on the 9-point lattice {(b,b+l): b,l in 0..2}"),
 ]
+
+
+def _valid_isolated(case):
+    """the shrinker edits the JSON blindly: keep only cases that still have the isolated-optimum structure"""
+    try:
+        A, B, unit = case["A"], case["B"], case["unit"]
+        if not A or len(B) != len(A) + (1 if case["extra"] else 0) or not 6 <= case["e"] <= 13 or unit <= 0:
+            return False
+        if any(len(p) != 2 or not p[1] - p[0] >= 0.2 * unit for p in A + B):
+            return False
+        for i, p in enumerate(A):
+            if any(abs(p[0] - q[0]) < 0.5 * unit and abs(p[1] - q[1]) < 0.5 * unit for q in A[i + 1:]):
+                return False
+            if sum(1 for q in B if abs(p[0] - q[0]) <= 4e-6 * unit and abs(p[1] - q[1]) <= 4e-6 * unit) != 1:
+                return False
+        return True
+    except Exception:
+        return False
+
+
+VALID = {"isolated_optimum": _valid_isolated}
 
 
 def VALID_DEFAULT(case):
